@@ -595,6 +595,62 @@ def r18_9(prog, out):
                             for st in blk.stmts:
                                 if st.k == "assign" and st.rv.k == "agg" and st.rv.j.get("ak") == "closure" and prog.qual(b, st.rv.j["def"]) == bid:
                                     trims.append((blk.idx, t.callee.path.split("::")[-1], prog.loc(bid, bb)))
+            # a length requirement on exactly the text that is then trimmed (`if !valid_len(rest) { return None }; id = rest.trim_matches('/')`):
+            # the stored id can fail the requirement its untrimmed form passed, unless the same requirement is put to the trimmed id
+            def measures(of_trim_result):
+                got = []
+                for mbb, mt in bi.calls(lambda c: (c.path.endswith("::len") and "str" in c.path) or c.path == "std::iter::Iterator::count"):
+                    if not mt.args:
+                        continue
+                    ms = sl.of(pid, mt.args[0])
+                    for tb0, tn0, tl0 in trims:
+                        derived = (pid, tb0) in ms.sites
+                        tt0 = bi.call_at(tb0)
+                        same_in = False
+                        if tt0 is not None and tt0.args:
+                            ui = bi.trace(tt0.args[0])
+                            mo = bi.trace(mt.args[0])
+                            if mt.callee.path == "std::iter::Iterator::count" and mo.kind == "call":
+                                ch = bi.call_at(mo.data)
+                                mo = bi.trace(ch.args[0]) if ch is not None and ch.args else mo
+                            same_in = (ui.kind, ui.data, tuple(ui.path or ())) == (mo.kind, mo.data, tuple(mo.path or ())) and ui.kind != "param"
+                        if (derived if of_trim_result else (same_in and not derived)):
+                            consts = set()
+                            # constants of the decision this measure feeds
+                            for blk in b.blocks:
+                                if blk.cleanup or blk.idx not in bi.cfg.reach:
+                                    continue
+                                for st in blk.stmts:
+                                    if st.k == "assign" and st.rv.k == "bin" and st.rv.j["op"] in ("Lt", "Le", "Gt", "Ge", "Eq", "Ne"):
+                                        ss = [sl.of(pid, o2) for o2 in st.rv.ops if o2.place is not None]
+                                        if any((pid, mbb) in x.sites for x in ss):
+                                            for o2 in st.rv.ops:
+                                                if o2.const_int() is not None:
+                                                    consts.add(o2.const_int())
+                                            for x in ss:
+                                                consts |= {int(c) for c in x.consts if isinstance(c, int) or (isinstance(c, str) and c.isdigit())}
+                                if blk.term.k == "call" and blk.term.callee is not None and blk.term.callee.path.endswith("::contains") and "Range" in blk.term.callee.path:
+                                    ss = [sl.of(pid, a2) for a2 in blk.term.args if a2.place is not None]
+                                    if any((pid, mbb) in x.sites for x in ss):
+                                        for x in ss:
+                                            consts |= {int(c) for c in x.consts if isinstance(c, int) or (isinstance(c, str) and c.isdigit())}
+                            got.append((mbb, frozenset(consts)))
+                return got
+            pre_id = measures(False)
+            post_id = measures(True)
+            if pre_id:
+                need = set()
+                for _mbb, cs in pre_id:
+                    need |= set(cs)
+                have = set()
+                for _mbb, cs in post_id:
+                    have |= set(cs)
+                if need and not need <= have:
+                    out.violation("%s:guard-after-trim" % label, bi.loc(pre_id[0][0]), "a length requirement (bounds %s) is checked on the text that is trimmed afterwards, and "
+                                  "the trimmed id is what is stored and echoed: `…/ab/` passes a minimum of 3 and is echoed as `…/ab`, which fails it -- the canonical name "
+                                  "of an accepted name is rejected" % sorted(need - have),
+                                  ["measured at %s" % bi.loc(pre_id[0][0]), "trimmed at %s" % trims[0][2]])
+                    continue
             key = "%s:guard-after-trim" % label
             raw_guards = [bb for bb, raw in cmps if raw]
             if not trims:
@@ -649,3 +705,49 @@ def r18_10(prog, out):
                 out.undecided(key, prog.loc(b.id), "no equality comparison found")
     if n < 2:
         raise CheckBroken("expected a project-membership predicate on both name types, found %d" % n)
+
+
+@rule("C18", "R18.11", "a name taken from a request is what the name type's own parser returned: no other way to a TopicName / SubscriptionName in the API layer", floor=2)
+def r18_11(prog, out):
+    """`accepted only if it consists of projects/, a project id, the segment of *its* kind and an id` is a statement about
+    `try_parse`.  The API layer turns request text into names through `fn(&str) -> Result<Name, Status>` wrappers; a fast path
+    in such a wrapper (a table of names seen before, keyed by the raw text and shared by both kinds; a hand-rolled split) hands out
+    names `try_parse` of that kind never saw.  Instances: every such wrapper (each non-error path calls the kind's `try_parse`),
+    and every direct construction of a name in the API layer."""
+    from props.c12 import error_blocks
+    n = 0
+    for label, ty in name_types(prog):
+        tp = set(find_parser(prog, ty))
+        for b in prog.facts.lib_bodies():
+            if b.impl_self == ty or b.coroutine or b.kind not in ("Fn", "AssocFn"):
+                continue
+            ret = b.local_ty(0) or ""
+            if b.arg_count >= 1 and (b.local_ty(1) or "") == "&str" and ty in ret and ("Result<" in ret or "Option<" in ret) and "Vec<" not in ret:
+                n += 1
+                bi = prog.info(b.id)
+                key = "%s:wrapper:%s" % (label, prog.short(b.id))
+                calls = {bb for bb, t in bi.calls(lambda c: prog.qual(b, c.target) in tp)}
+                if not calls:
+                    out.violation(key, prog.loc(b.id), "%s turns text into a %s without calling %s::try_parse" % (prog.short(b.id), label, label))
+                    continue
+                esc = bi.cfg.escapes(0, calls | error_blocks(bi), after=False)
+                if esc is None:
+                    out.holds(key, prog.loc(b.id), "every non-error path goes through %s::try_parse" % label)
+                else:
+                    out.violation(key, bi.loc(esc[-1]), "%s can hand out a %s on a path that never calls %s::try_parse (a remembered / hand-built name): text that is "
+                                  "not a %s name -- e.g. a name of the other kind seen earlier -- is accepted as one" % (prog.short(b.id), label, label, label),
+                                  ["bb%d (%s)" % (x, bi.loc(x)) for x in esc][:8])
+        # direct constructions in the API layer
+        ctors = {b.id for b in prog.facts.lib_bodies() if b.impl_self == ty and b.kind == "AssocFn" and not b.impl_trait and b.id not in tp
+                 and ty in (b.local_ty(0) or "") and any((b.local_ty(i) or "") == "&str" for i in range(1, b.arg_count + 1))}
+        for b in prog.facts.lib_bodies():
+            if not (b.file or "").startswith("src/api/"):
+                continue
+            bi = prog.info(b.id)
+            for bb, t in bi.calls(lambda c: prog.qual(b, c.target) in ctors):
+                ret = (prog.facts.body(b.root).local_ty(0) if b.root and prog.facts.body(b.root) else b.local_ty(0)) or ""
+                key = "%s:built-in-api:%s" % (label, prog.short(b.id))
+                out.violation(key, bi.loc(bb), "the API layer builds a %s from parts with %s instead of parsing the request's text with %s::try_parse" % (
+                    label, prog.short(prog.qual(b, t.callee.target)), label))
+    if n < 2:
+        raise CheckBroken("expected the API layer's two name wrappers fn(&str) -> Result<Name, Status>, found %d" % n)
